@@ -1,6 +1,6 @@
 (* Properties_C16.v — C16: save() reports failure whenever the output did not take the whole file. *)
 From ElfioV Require Import Bytes Mem Stream Stream_proofs SectionData Strings Elfio Table Loader Layout Writer
-     Ostream_proofs Layout_proofs Writer_proofs ByName_proofs Save_endtoend.
+     Ostream_proofs Layout_proofs Writer_proofs ByName_proofs Segment_proofs Oneseg_proofs Oneseg_writer Save_endtoend.
 Local Open Scope N_scope.
 
 (* What save() writes is a plan of (position, bytes) pairs executed on the
@@ -73,6 +73,40 @@ Theorem C16_save_reports_failure_end_to_end :
           forall el2 os, save junk el0 (new_ostream (Some k)) <> Ok (el2, os, true))).
 Proof. exact save_noseg_capped. Qed.
 Print Assumptions C16_save_reports_failure_end_to_end.
+
+(* ... and the same for objects with one segment of automatically addressed members (the class of
+   C03_save_with_one_segment_end_to_end): the sink may give up during the ELF header, a section, or the program
+   header record that is written last - save() is true exactly when everything fitted *)
+Theorem C16_save_reports_failure_end_to_end_one_segment :
+  forall junk el h0 g bound ms k,
+    let idxs := g_sections g in
+    let align := if 0 <? p_align g then p_align g else 1 in
+    let secs := el_secs el in
+    let pos0 := e_ehsize h0 + e_phentsize h0 in
+    el_hdr el = Some h0 -> el_segs el = [g] -> lenN secs < 2 ^ 16 ->
+    lenN idxs < 2 ^ 16 -> idxs <> [] -> g_offset_set g = false -> p_type g <> PT_PHDR -> NoDup idxs ->
+    Forall2 (fun i s => nth_optN secs i = Some s) idxs ms ->
+    Forall auto_member ms -> Forall (fun s => sh_addralign s <= p_align g) ms ->
+    bound <= 2 ^ 63 -> Forall (fun s => bound <= 2 ^ xw (s_cls s)) secs -> bound <= 2 ^ xw (g_cls g) ->
+    bound <= 2 ^ xw (e_cls h0) -> p_align g < 2 ^ 63 ->
+    p_vaddr g + pos0 + align + mbudget ms + budget secs + 16 + e_shentsize h0 * lenN secs < bound ->
+    indexed_from 0 secs ->
+    (forall s, In s secs -> s_index s = 0 -> csize s = 0) ->
+    lenN (e_ident h0) = 16 -> e_ehsize h0 = ehdr_size (e_cls h0) ->
+    (forall s, In s secs -> shdr_size (s_cls s) <= e_shentsize h0) ->
+    phdr_size (g_cls g) <= e_phentsize h0 -> g_index g = 0 ->
+    el_xlat el = [] -> el_compr el = false -> Forall writable secs -> g_loaded g = true ->
+    exists el' h' g',
+      layout el = Ok (el', true) /\ el_hdr el' = Some h' /\ el_segs el' = [g'] /\
+      let plan := oneseg_plan h' (el_secs el') (segments_plan (e_enc h') h' [g']) in
+      (plan_small 0 plan ->
+       let full := exec_plan (new_ostream None) plan in
+       (os_len full <= k ->
+          exists os, save junk el (new_ostream (Some k)) = Ok (el', os, true) /\ os_bytes os = os_bytes full) /\
+       (k < os_len full ->
+          forall el2 os, save junk el (new_ostream (Some k)) <> Ok (el2, os, true))).
+Proof. exact save_oneseg_capped. Qed.
+Print Assumptions C16_save_reports_failure_end_to_end_one_segment.
 
 (* evaluation (a test, not a theorem): a 144-byte file; a sink of 143 bytes makes save() return false, one of 144 true *)
 Definition ex_cap_secs : list section :=
